@@ -1,7 +1,9 @@
 //! C08 — prompt-storage mode resolution and secret masking.
 //! Real code: config::{Config::effective_prompt_storage, Config::should_exclude_prompts,
 //! PromptStorageMode::from_str}, authorship::secrets::{extract_tokens, redact_secret,
-//! redact_secrets_in_text, redact_secrets_from_prompts, strip_prompt_messages, is_random}.
+//! redact_secrets_in_text, redact_secrets_in_json (reached through redact_secrets_from_prompts on a
+//! single ToolUse message, so the suite also compiles against trees without that function),
+//! redact_secrets_from_prompts, strip_prompt_messages, is_random}.
 //! The entropy classifier is opaque in the Lean model: its verdict on every in-window token of
 //! the request text travels with the request (`verdicts`).
 use crate::common::*;
@@ -290,6 +292,243 @@ fn redact_text_case(text: &str, em: &mut Emitter, mut tags: Vec<String>) {
     em.emit("c08", json!({"op": "rd_redact_text", "text": text, "verdicts": verdicts_for(text)}), imp, oracles, tags);
 }
 
+// ------------------------------------------------------------------ tool inputs (JSON values)
+
+/// transport form shared with the Lean driver (exact comparison; number literals as text; object
+/// entries in the map's iteration order): ["z"] ["b",bool] ["n","lit"] ["s","text"] ["a",[..]] ["o",[[k,v]..]]
+pub fn tagged(v: &Value) -> Value {
+    match v {
+        Value::Null => json!(["z"]),
+        Value::Bool(b) => json!(["b", b]),
+        Value::Number(n) => json!(["n", n.to_string()]),
+        Value::String(s) => json!(["s", s]),
+        Value::Array(a) => json!(["a", a.iter().map(tagged).collect::<Vec<_>>()]),
+        Value::Object(o) => json!(["o", o.iter().map(|(k, x)| json!([k, tagged(x)])).collect::<Vec<_>>()]),
+    }
+}
+
+/// every string of a value: leaves and object keys, any depth
+fn json_strings(v: &Value, out: &mut Vec<String>) {
+    match v {
+        Value::String(s) => out.push(s.clone()),
+        Value::Array(a) => a.iter().for_each(|x| json_strings(x, out)),
+        Value::Object(o) => {
+            for (k, x) in o {
+                out.push(k.clone());
+                json_strings(x, out);
+            }
+        }
+        _ => {}
+    }
+}
+
+/// reference traversal, written from the property statement: every string (leaf or key) is replaced
+/// by its reference redaction; everything else stays; objects are maps (a later equal key wins)
+fn ref_redact_json(v: &Value, n: &mut usize) -> Value {
+    match v {
+        Value::String(s) => {
+            let (t, c) = ref_redact(s);
+            *n += c;
+            Value::String(t)
+        }
+        Value::Array(a) => Value::Array(a.iter().map(|x| ref_redact_json(x, n)).collect()),
+        Value::Object(o) => {
+            let mut m = BTreeMap::new();
+            for (k, x) in o {
+                let x2 = ref_redact_json(x, n);
+                let (k2, c) = ref_redact(k);
+                *n += c;
+                m.insert(k2, x2);
+            }
+            Value::Object(m.into_iter().collect())
+        }
+        other => other.clone(),
+    }
+}
+
+/// the real traversal: `redact_secrets_from_prompts` on one prompt holding one ToolUse message
+fn real_redact_json(v: &Value) -> Result<(Value, usize), String> {
+    let mut ps = BTreeMap::new();
+    ps.insert("p".to_string(), prompt_record(0, vec![Message::ToolUse { name: "tool".into(), input: v.clone(), timestamp: None }]));
+    let n = catch(std::panic::AssertUnwindSafe(|| secrets::redact_secrets_from_prompts(&mut ps)))?;
+    match ps.remove("p").and_then(|mut p| p.messages.pop()) {
+        Some(Message::ToolUse { input, .. }) => Ok((input, n)),
+        _ => Err("tool message lost".into()),
+    }
+}
+
+fn prompt_record(i: u64, messages: Vec<Message>) -> PromptRecord {
+    PromptRecord {
+        agent_id: AgentId { tool: "mock_agent".into(), id: format!("s{i}"), model: "m".into() },
+        human_author: None,
+        messages,
+        total_additions: 1,
+        total_deletions: 0,
+        accepted_lines: 1,
+        overriden_lines: 0,
+        messages_url: None,
+    }
+}
+
+fn gen_json_string(rng: &mut Rng, tags: &mut Vec<String>) -> String {
+    match rng.below(8) {
+        0 | 1 => {
+            // a bare token at a window boundary
+            let len = rng.pick(&[14usize, 15, 16, 89, 90, 91]);
+            tags.push(format!("json-leaf-toklen={len}"));
+            gen_random_token(rng, len)
+        }
+        2 => {
+            let len = 24 + rng.below(20) as usize;
+            format!("export KEY={}; echo done", gen_random_token(rng, len))
+        }
+        3 => gen_word(rng),
+        4 => String::new(),
+        _ => {
+            let (t, tg) = gen_text(rng);
+            tags.extend(tg);
+            t
+        }
+    }
+}
+
+fn gen_json_key(rng: &mut Rng, tags: &mut Vec<String>) -> String {
+    match rng.below(12) {
+        0 | 1 => {
+            let len = rng.pick(&[14usize, 15, 16, 89, 90, 91, 20, 32]);
+            tags.push(format!("json-key-toklen={len}"));
+            gen_random_token(rng, len)
+        }
+        2 => {
+            tags.push("json-key-unicode".into());
+            rng.pick(&["ключ", "キー", "é", "naïve key", "🙂", "schlüssel=", "\u{0}"]).to_string()
+        }
+        3 => {
+            // credential inside a longer key with multi-byte neighbours
+            tags.push("json-key-unicode".into());
+            tags.push("json-key-credential".into());
+            let len = 20 + rng.below(30) as usize;
+            format!("é{}日", gen_random_token(rng, len))
+        }
+        4 => String::new(),
+        _ => rng.pick(&["command", "file_path", "content", "env", "args", "old_string", "new_string", "headers", "url", "a", "b", "n"]).to_string(),
+    }
+}
+
+pub fn gen_json(rng: &mut Rng, depth: u32, tags: &mut Vec<String>) -> Value {
+    let leaf = depth == 0 || rng.chance(2, 5);
+    if leaf {
+        return match rng.below(10) {
+            0 => Value::Null,
+            1 => Value::Bool(rng.chance(1, 2)),
+            2 => {
+                tags.push("json-number".into());
+                match rng.below(5) {
+                    0 => json!(123456789012345678u64), // a digit run longer than the window's lower bound: stays a number
+                    1 => json!(-1.5),
+                    2 => json!(1e21),
+                    3 => json!(0),
+                    _ => json!(rng.below(100000)),
+                }
+            }
+            _ => Value::String(gen_json_string(rng, tags)),
+        };
+    }
+    if rng.chance(1, 3) {
+        let n = rng.size(3, 6);
+        Value::Array((0..n).map(|_| gen_json(rng, depth - 1, tags)).collect())
+    } else {
+        let n = rng.size(3, 6);
+        let mut m = serde_json::Map::new();
+        for _ in 0..n {
+            m.insert(gen_json_key(rng, tags), gen_json(rng, depth - 1, tags));
+        }
+        if rng.chance(1, 8) {
+            // two keys whose masked forms coincide (same first and last four characters)
+            let mid1 = gen_random_token(rng, 12);
+            let mid2 = gen_random_token(rng, 12);
+            m.insert(format!("Qz7k{mid1}x9Pw"), gen_json(rng, depth - 1, tags));
+            m.insert(format!("Qz7k{mid2}x9Pw"), gen_json(rng, depth - 1, tags));
+            tags.push("json-key-collision-candidate".into());
+        }
+        Value::Object(m)
+    }
+}
+
+fn json_depth(v: &Value) -> usize {
+    match v {
+        Value::Array(a) => 1 + a.iter().map(json_depth).max().unwrap_or(0),
+        Value::Object(o) => 1 + o.values().map(json_depth).max().unwrap_or(0),
+        _ => 0,
+    }
+}
+
+fn gen_tool_input(rng: &mut Rng, tags: &mut Vec<String>) -> Value {
+    let v = match rng.below(10) {
+        0 => {
+            // a deep chain (the traversal is recursive): 30..70 levels (serde_json parses at most 128), a credential at the bottom
+            let mut v = Value::String(gen_random_token(rng, 32));
+            for k in 0..(30 + rng.below(40)) {
+                v = if k % 2 == 0 { json!([v]) } else { json!({ "k": v }) };
+            }
+            tags.push("json-deep".into());
+            v
+        }
+        1 => gen_json(rng, 0, tags),
+        2 | 3 => json!({"command": gen_json_string(rng, tags), "n": rng.below(5)}),
+        _ => {
+            let d = 1 + rng.below(4) as u32;
+            let mut m = serde_json::Map::new();
+            m.insert(gen_json_key(rng, tags), gen_json(rng, d, tags));
+            m.insert(gen_json_key(rng, tags), gen_json(rng, d, tags));
+            Value::Object(m)
+        }
+    };
+    tags.push(format!("json-depth={}", json_depth(&v).min(6)));
+    v
+}
+
+fn json_case(v: &Value, em: &mut Emitter, mut tags: Vec<String>) {
+    let r = real_redact_json(v);
+    let mut want_n = 0;
+    let want = ref_redact_json(v, &mut want_n);
+    let mut strs = Vec::new();
+    json_strings(v, &mut strs);
+    let all_text = strs.join("\n");
+    let imp = match &r {
+        Ok((x, n)) => json!({"ok": {"value": tagged(x), "count": n}}),
+        Err(_) => json!({"err": "panic"}),
+    };
+    let mut oracles = vec![oracle("redact_json_no_panic", r.is_ok(), json!({"value": v}), "redact-json:panic")];
+    if let Ok((out, n)) = &r {
+        let mut outs = Vec::new();
+        json_strings(out, &mut outs);
+        let surv = outs.iter().find_map(|s| surviving_flagged(s));
+        oracles.push(oracle(
+            "no_flagged_token_in_tool_input",
+            surv.is_none(),
+            json!({"survivor": surv, "input": v, "out": out}),
+            "notes-mode:credential-in-tool-input-unmasked",
+        ));
+        oracles.push(oracle(
+            "equals_reference_traversal",
+            *out == want && *n == want_n,
+            json!({"input": v, "out": out, "count": n, "want": want, "want_count": want_n}),
+            "redact-json:differs-from-reference",
+        ));
+        let mut ins = Vec::new();
+        json_strings(v, &mut ins);
+        if outs.len() < ins.len() {
+            tags.push("json-key-collision".into());
+        }
+    }
+    tags.push(format!("json-flagged={}", want_n.min(4)));
+    tags.push(format!("json-kind={}", match v { Value::Object(_) => "object", Value::Array(_) => "array", Value::String(_) => "string", _ => "scalar" }));
+    tags.sort();
+    tags.dedup();
+    em.emit("c08", json!({"op": "rd_redact_json", "value": tagged(v), "verdicts": verdicts_for(&all_text)}), imp, oracles, tags);
+}
+
 // ------------------------------------------------------------------ cases: prompts
 
 fn gen_message(rng: &mut Rng, tags: &mut Vec<String>) -> Message {
@@ -303,7 +542,8 @@ fn gen_message(rng: &mut Rng, tags: &mut Vec<String>) -> Message {
         3 => Message::Plan { text, timestamp: ts },
         _ => {
             tags.push("tool_use".to_string());
-            Message::ToolUse { name: "bash".to_string(), input: json!({"command": text, "n": rng.below(5)}), timestamp: ts }
+            let input = if rng.chance(1, 2) { json!({"command": text, "n": rng.below(5)}) } else { gen_tool_input(rng, tags) };
+            Message::ToolUse { name: "bash".to_string(), input, timestamp: ts }
         }
     }
 }
@@ -314,7 +554,7 @@ fn jmsg(m: &Message) -> Value {
         Message::Assistant { text, .. } => json!({"k": "assistant", "text": text}),
         Message::Thinking { text, .. } => json!({"k": "thinking", "text": text}),
         Message::Plan { text, .. } => json!({"k": "plan", "text": text}),
-        Message::ToolUse { name, input, .. } => json!({"k": "tool_use", "name": name, "input": input.to_string()}),
+        Message::ToolUse { name, input, .. } => json!({"k": "tool_use", "name": name, "input": tagged(input)}),
     }
 }
 
@@ -331,16 +571,7 @@ fn prompts_case(rng: &mut Rng, em: &mut Emitter) {
         let messages = (0..nm).map(|_| gen_message(rng, &mut tags)).collect();
         ps.insert(
             format!("{:016x}", rng.next() ^ i),
-            PromptRecord {
-                agent_id: AgentId { tool: "mock_agent".into(), id: format!("s{i}"), model: "m".into() },
-                human_author: None,
-                messages,
-                total_additions: 1,
-                total_deletions: 0,
-                accepted_lines: 1,
-                overriden_lines: 0,
-                messages_url: None,
-            },
+            prompt_record(i, messages),
         );
     }
     tags.sort();
@@ -349,9 +580,19 @@ fn prompts_case(rng: &mut Rng, em: &mut Emitter) {
     let mut all_text = String::new();
     for p in ps.values() {
         for m in &p.messages {
-            if let Message::User { text, .. } | Message::Assistant { text, .. } | Message::Thinking { text, .. } | Message::Plan { text, .. } = m {
-                all_text.push_str(text);
-                all_text.push('\n');
+            match m {
+                Message::User { text, .. } | Message::Assistant { text, .. } | Message::Thinking { text, .. } | Message::Plan { text, .. } => {
+                    all_text.push_str(text);
+                    all_text.push('\n');
+                }
+                Message::ToolUse { input, .. } => {
+                    let mut strs = Vec::new();
+                    json_strings(input, &mut strs);
+                    for t in strs {
+                        all_text.push_str(&t);
+                        all_text.push('\n');
+                    }
+                }
             }
         }
     }
@@ -376,20 +617,12 @@ fn prompts_case(rng: &mut Rng, em: &mut Emitter) {
                         }
                     }
                     Message::ToolUse { input, .. } => {
-                        // every string leaf of the tool input
-                        fn walk(v: &Value, out: &mut Option<String>) {
-                            match v {
-                                Value::String(s) => {
-                                    if out.is_none() {
-                                        *out = surviving_flagged(s);
-                                    }
-                                }
-                                Value::Array(a) => a.iter().for_each(|x| walk(x, out)),
-                                Value::Object(o) => o.values().for_each(|x| walk(x, out)),
-                                _ => {}
-                            }
+                        // every string of the tool input: leaves and object keys
+                        let mut strs = Vec::new();
+                        json_strings(input, &mut strs);
+                        if tool_survivor.is_none() {
+                            tool_survivor = strs.iter().find_map(|t| surviving_flagged(t));
                         }
-                        walk(input, &mut tool_survivor);
                     }
                 }
             }
@@ -588,6 +821,8 @@ pub fn run(seed: u64, count: u64, corpus: Option<&str>, em: &mut Emitter) {
                 if let Some(t) = v.get("text").and_then(|x| x.as_str()) {
                     tokens_case(t, em, vec!["corpus".into()]);
                     redact_text_case(t, em, vec!["corpus".into()]);
+                } else if let Some(j) = v.get("json") {
+                    json_case(j, em, vec!["corpus".into()]);
                 } else if let Some(s) = v.get("secret").and_then(|x| x.as_str()) {
                     redact_secret_case(s, em, vec!["corpus".into()]);
                 } else if let Some(ps) = v.get("prompt_storage").and_then(|x| x.as_str()) {
@@ -646,6 +881,11 @@ pub fn run(seed: u64, count: u64, corpus: Option<&str>, em: &mut Emitter) {
                 redact_secret_case(&s, em, vec!["kind=redact_secret".into()]);
             }
             3 => prompts_case(&mut rng, em),
+            5 => {
+                let mut tags = vec!["kind=json".to_string()];
+                let v = gen_tool_input(&mut rng, &mut tags);
+                json_case(&v, em, tags);
+            }
             4 => {
                 let (t, mut tags) = gen_text(&mut rng);
                 tags.push("kind=tokens".into());
